@@ -34,6 +34,9 @@ func (c01) Assumptions() []string {
 }
 
 func (c01) Run(c *fw.Case) {
+	if c.Idx%6 == 5 {
+		failedCalls(c) // call history: failed calls before the case must leave nothing behind
+	}
 	r := c.R
 	if c.Idx%8 == 7 {
 		// the dedicated unevaluated* workload (C07's generator): $ref / $dynamicRef to definitions whose applicators
